@@ -176,6 +176,21 @@ Definition spawns_with_default_stack (f : fn_def) : bool :=
 Lemma reloader_thread_has_the_default_stack : spawns_with_default_stack HotReloader_start = true.
 Proof. vm_compute. reflexivity. Qed.
 
+(* HotReloader::make gives a reloader only to a source that can be cloned for it (make_source) AND
+   whose hot-reloading started: both go through `?` before the thread is started *)
+Definition make_wf (f : fn_def) : bool :=
+  match fn_body f with
+  | [ELetS (PIdent src None) (Some (ETry (EMethod (EPath ["source"]) "make_source" []))) None;
+     ELetS (PTuple [PIdent tx None; PIdent rx None]) (Some (ECall (EPath ["channel"; "unbounded"]) [])) None;
+     ESemi (ETry (EMethod (EMethod (EMethod (EPath ["source"]) "configure_hot_reloading" [ECall (EPath ["EventSender"]) [EPath [tx']]])
+                             "map_err" [_]) "ok" []));
+     ECall (EPath ["Some"]) [ECall (EPath ["Self"; "start"]) [EPath [rx']; EPath [src']]]] =>
+      String.eqb src src' && String.eqb tx tx' && String.eqb rx rx'
+  | _ => false
+  end.
+Lemma reloader_only_when_hot_reloading_started : make_wf HotReloader_make = true.
+Proof. vm_compute. reflexivity. Qed.
+
 Lemma reloader_channels_never_block_senders :
   creates_unbounded "cache_msg_tx" "cache_msg_rx" HotReloader_start = true /\
   creates_unbounded "events_tx" "events_rx" HotReloader_make = true.
